@@ -197,7 +197,7 @@ class State:
         Rp = c["Rp"]
         self.inputs0 = dict(radius=[f * Rp for f in c["frac"]], density=[sp.Symbol(f"rho_{k}", positive=True) for k in range(total)],
                             gravity=[sp.Symbol(f"g_{k}", positive=True) for k in range(total)], bulk=[sp.Symbol(f"K_{k}", positive=True) for k in range(total)],
-                            shear=[Cx(sp.Symbol(f"mu_{k}_re", positive=True), sp.Symbol(f"mu_{k}_im", real=True)) for k in range(total)])
+                            shear=[(sp.Symbol(f"mu_{k}") if c.get("analytic") else Cx(sp.Symbol(f"mu_{k}_re", positive=True), sp.Symbol(f"mu_{k}_im", real=True))) for k in range(total)])
         self.arrays = {}
         for nm in ("radius", "density", "gravity", "bulk", "shear"):
             blk = Block(mem, "input", total, nm + "_array")
@@ -267,6 +267,9 @@ class State:
                             blk.data[q] = st.y0.get(q)          # CyRK contract: the first output row is the initial vector
                         elif c["sol_contract"] is not None:
                             blk.data[s_ * st.nyd + q] = c["sol_contract"](st.layer_i, st.k, s_, q)
+                        elif c.get("analytic"):
+                            # one complex atom per component, carried in the "real" slot (the imaginary slot is 0 and is recombined by cf_build_dblcmplx)
+                            blk.data[s_ * st.nyd + q] = sp.Symbol(f"SOL_{st.layer_i}_{st.k}_{s_}_{q // 2}") if q % 2 == 0 else sp.Integer(0)
                         else:
                             blk.data[s_ * st.nyd + q] = sp.Symbol(f"SOL_{st.layer_i}_{st.k}_{s_}_{q}", real=True)
                 st.solution_y_ptr = blk
@@ -288,7 +291,10 @@ class State:
         info_ptr.set(0, sp.Integer(self.cfg["zgesv_info"]))
         if self.cfg["zgesv_info"] != 0:
             return
-        cvec = [Cx(sp.Symbol(f"c{k0}_{j}_re", real=True), sp.Symbol(f"c{k0}_{j}_im", real=True)) for j in range(n)]
+        if self.cfg.get("analytic"):
+            cvec = [Cx(sp.Symbol(f"c{k0}_{j}"), 0) for j in range(n)]
+        else:
+            cvec = [Cx(sp.Symbol(f"c{k0}_{j}_re", real=True), sp.Symbol(f"c{k0}_{j}_im", real=True)) for j in range(n)]
         rec["c"] = cvec
         rec["facts"] = []
         for i in range(n):
@@ -311,7 +317,7 @@ class State:
         sc = self.cfg["start_contract"]
         for j in range(nsol):
             for i in range(2 * nsol):
-                v = sc(j, i) if sc else Cx(sp.Symbol(f"START_{j}_{i}_re", real=True), sp.Symbol(f"START_{j}_{i}_im", real=True))
+                v = sc(j, i) if sc else (sp.Symbol(f"START_{j}_{i}") if self.cfg.get("analytic") else Cx(sp.Symbol(f"START_{j}_{i}_re", real=True), sp.Symbol(f"START_{j}_{i}_im", real=True)))
                 y_ptr.set(j * 6 + i, v)
 
     def make_solution(self, ex, node, total_slices, solve_for_, num_ytypes):
@@ -364,8 +370,11 @@ class State:
 
 def run_solver(b, stack, solve_for=("tidal",), nondim=True, slices_per_layer=4, fail_layer=None, zgesv_info=0, raise_on_fail=False, use_kamata=True,
                degree=None, extra_pre=(), start_contract=None, sol_contract=None, upper_radius_bad=False, entry="cf", total_override=None,
-               layer_type_names=None, integration_method="RK45", mismatch=None, start_raises=False):
-    """stack: list of layer kind names (bottom to top).  Returns (exec, paths, cfg); every path carries .state (a State)."""
+               layer_type_names=None, integration_method="RK45", mismatch=None, start_raises=False, analytic=False):
+    """analytic=True: complex quantities (moduli, starting vectors, integrated solutions, zgesv constants) are single complex atoms instead of (re, im)
+    pairs; sound for the repository code executed here because it is complex-analytic in them (its only .real/.imag sites split a value and
+    recombine it unchanged - those sites are covered by the pair mode).
+    stack: list of layer kind names (bottom to top).  Returns (exec, paths, cfg); every path carries .state (a State)."""
     nl = len(stack)
     ns = slices_per_layer
     total = nl * ns if total_override is None else total_override
@@ -377,7 +386,7 @@ def run_solver(b, stack, solve_for=("tidal",), nondim=True, slices_per_layer=4, 
     cfg = dict(stack=list(stack), nl=nl, ns=ns, total=total, Rp=Rp, rho_b=sp.Symbol("rho_bulk", positive=True), freq=sp.Symbol("frequency", positive=True),
                l=degree if degree is not None else R("l"), frac=frac, upper=upper, kinds=[LAYER_KINDS[k] for k in stack], solve_for=solve_for, nondim=nondim,
                fail_layer=fail_layer, zgesv_info=zgesv_info, raise_on_fail=raise_on_fail, use_kamata=use_kamata, start_contract=start_contract, sol_contract=sol_contract,
-               entry=entry, start_raises=start_raises, layer_type_names=layer_type_names, integration_method=integration_method, mismatch=mismatch)
+               entry=entry, analytic=analytic, start_raises=start_raises, layer_type_names=layer_type_names, integration_method=integration_method, mismatch=mismatch)
     inline = {}
     for rel, names in INLINED:
         for nm in names:
